@@ -5,6 +5,9 @@ use crate::{AmqpProperties, Confirm, Error, Get, Return};
 use amq_protocol::protocol::basic::AMQPMethod as AmqpBasic;
 use amq_protocol::protocol::basic::Consume;
 use amq_protocol::protocol::basic::Get as AmqpGet;
+use amq_protocol::protocol::channel::AMQPMethod as AmqpChannel;
+use amq_protocol::protocol::channel::Close as ChannelClose;
+use amq_protocol::protocol::channel::CloseOk as ChannelCloseOk;
 use amq_protocol::protocol::connection::AMQPMethod as AmqpConnection;
 use amq_protocol::protocol::connection::Close as ConnectionClose;
 use amq_protocol::protocol::connection::CloseOk as ConnectionCloseOk;
@@ -87,6 +90,11 @@ impl IoLoopHandle {
             ChannelMessage::ConsumeOk(tag, rx) => Ok((tag, rx)),
             ChannelMessage::Method(_) | ChannelMessage::GetOk(_) => FrameUnexpectedSnafu.fail(),
         }
+    }
+
+    pub(super) fn call_channel_close(&mut self, close: ChannelClose) -> Result<ChannelCloseOk> {
+        let buf = self.make_buf(AmqpChannel::Close(close));
+        self.call_message(IoLoopMessage::ChannelClose(buf))
     }
 
     pub(super) fn call_connection_close(
